@@ -94,6 +94,38 @@ PLAN["C08"] = dict(
 PLAN["C06"]["functions"] = dict(quick=PLAN["C06"]["functions"]["quick"] + CLIENT_C06, thorough=MANAGER_ALL + CLIENT_C06)
 PLAN["C06"]["sidecars"] = CLIENT_SIDECARS
 PLAN["C06"]["assumptions"] = ENV_ASSUMPTIONS + CLIENT_ASSUMPTIONS
+from .validator_contracts import VALIDATOR_TARGETS
+from .parser_contracts import PARSER_C11, PARSER_C12
+PLAN["C09"] = dict(
+    functions=dict(quick=VALIDATOR_TARGETS, thorough=VALIDATOR_TARGETS), sidecars=["contracts.validator_contracts"],
+    assumptions=ENV_ASSUMPTIONS[:1] + [
+        "floats: z3 FloatingPoint (IEEE-754 binary64, RNE), a c_float store is the binary32 rounding; NaN payloads are not distinguished",
+        "ctypes scalar conversion: c_float(x)/c_double(x) raise TypeError unless x is int or float; ints beyond +-2^200 (OverflowError) are excluded by precondition",
+        "builtin max/min fold specification (attained bound); any()/all() are bounded quantifiers over the sequence",
+        "contextlib.contextmanager drives the generator: the with-body's exception is thrown at the yield",
+        "NOT under contract (trusted, outside this check): String.__set__ / Char (ctypes store and memset), ArrayField.__setitem__/__set__ (ctypes slice store after validation), Struct / StructArray "
+        "class checks, Byte.__set__; their validate_* helpers that are under contract are the numeric cores the property's boundary cases live in"],
+    explanation="each validator function is verified once per kind of python value (int, bool, float, str, None, list of ints/floats): validate_one / validate_many raise exactly for values outside "
+                "the field's domain (range for the 8 integer classes, overflow-to-infinity after rounding for Float/Double incl. next to NaN, length/ASCII for strings); __set__ stores only after "
+                "validation (refusal leaves the message untouched: frame) and reads back the assigned value; disable_message_validation restores the flag on both continuations of its yield")
+PLAN["C11"] = dict(
+    functions=dict(quick=PARSER_C11, thorough=PARSER_C11), sidecars=["contracts.parser_contracts"],
+    assumptions=ENV_ASSUMPTIONS[:1] + [
+        "Field.size / Field.alignment / SDF.size are opaque getters over immutable ghost values (size > 0, alignment in {1,2,4,8}, size a multiple of alignment: the type invariant, which natives satisfy by table and nested structs by check_alignment's own postcondition)",
+        "lemma packed_is_natural (assumed): aligned, contiguous fields from offset 0 whose end is a multiple of every member alignment have ctypes.sizeof == sum of field sizes (get_ctype_size contract)",
+        "the Field objects of a struct are pairwise distinct; Optional[int] lengths are modelled as ints with None == 0"],
+    explanation="check_alignment: loop invariants over (n, ptr, npad) and two ghost position maps (user field -> position, position -> user field or padding) give: every offset a multiple of the "
+                "field's alignment, fields contiguous from 0, end of struct a multiple of every member alignment (so the final ctypes size assert cannot fail), only char paddings inserted, user "
+                "fields never dropped, reordered or resized, AlignmentError only with auto_pad off; validate_msg_def rejects sizes above 65535")
+PLAN["C12"] = dict(
+    functions=dict(quick=PARSER_C12, thorough=PARSER_C12), sidecars=["contracts.parser_contracts"],
+    assumptions=ENV_ASSUMPTIONS[:1] + [
+        "Parser.check_name (regex) and trim_root / pathlib are external; ruamel.yaml rejects duplicate keys inside one file",
+        "NOT under contract: handle_reserve's range parsing (regex), parse_file's import de-duplication (pathlib.resolve), check_duplicate_name across the five shared namespaces for "
+        "constants/aliases/structs/messages (same loop shape as the id handlers, inlined at their call sites only for host/module ids here)"],
+    explanation="registry invariant (every entry stored under its own name, ids injective) preserved by handle_host_id / handle_module_id; acceptance implies no id or name clash with any registered "
+                "item (the search loops' normal exit), each error is raised only when the corresponding clash exists, range errors exactly outside the permitted ranges (with the core_defs / "
+                "import_coredefs exemptions); validate_msg_id likewise for messages, signals and reserved ids")
 for _p in PLAN.values():
     _p.setdefault("level", "proof")
     _p.setdefault("trusted_base", ["pyvc (ast -> VC generator written for this task)", "z3 5.1.0", "cvc5 1.0.3", "sidecar contracts in /verif/contracts"])
